@@ -24,8 +24,8 @@ ASSUMPTIONS = ["numpy's Generator.shuffle is a uniform shuffle"]
 
 def cases(tier, rnd):
     out = []
-    for i in range(40 if tier == "quick" else 200):
-        n = rnd.randint(1, 6 if tier == "quick" else (8 if i % 5 == 0 else 7))
+    for i in range(120 if tier == "quick" else 500):
+        n = rnd.randint(1, (7 if i % 10 == 0 else 6) if tier == "quick" else (8 if i % 5 == 0 else 7))
         forest, outs = random_canon_tree(rnd, n, outliers=(i % 2 == 0), max_out=3)
         out.append({"n": n, "forest": forest, "outs": outs})
     # fixed corner cases
